@@ -173,9 +173,10 @@ def benign(src, bid, checks=None, tier="quick", seed=None):
         return False
     dst = os.path.join(BENIGN, bid)
     os.makedirs(dst, exist_ok=True)
-    shutil.copy(patch, os.path.join(dst, "patch.diff"))
-    if os.path.exists(os.path.join(src, "notes.md")):
-        shutil.copy(os.path.join(src, "notes.md"), os.path.join(dst, "notes.md"))
+    if os.path.abspath(src) != os.path.abspath(dst):
+        shutil.copy(patch, os.path.join(dst, "patch.diff"))
+        if os.path.exists(os.path.join(src, "notes.md")):
+            shutil.copy(os.path.join(src, "notes.md"), os.path.join(dst, "notes.md"))
     assert repo_clean(), "/repo has uncommitted changes"
     rc, out = sh(["git", "-C", "/repo", "apply", os.path.join(dst, "patch.diff")])
     assert rc == 0, out
